@@ -27,9 +27,18 @@ RefSet(b, msgs) ==
         ELSE IF typ \notin Known THEN {Out(msgs, <<1, 3>>, TRUE)}
         ELSE LET rest == SubSeq(b, len + 1, Len(b))  blen == len - 19 IN
              CASE typ = 4 -> IF blen = 0 THEN RefSet(rest, Append(msgs, "K")) ELSE {Out(msgs, <<1, 2>>, TRUE), Out(Append(msgs, "K"), <<1, 2>>, TRUE)}
-               [] typ = 1 -> IF blen < 10 THEN {Out(msgs, <<1, 2>>, TRUE)} ELSE {Out(Append(msgs, "O"), <<5, 0>>, TRUE)}
+               \* an OPEN in Established draws the FSM error; a frame of type OPEN whose body is not even shaped like an OPEN
+               \* (version octet, optional parameter length) may instead draw an OPEN Message Error (RFC 4271 6.2) unreported
+               [] typ = 1 -> IF blen < 10 THEN {Out(msgs, <<1, 2>>, TRUE)}
+                             ELSE {Out(Append(msgs, "O"), <<5, 0>>, TRUE)}
+                                  \cup (IF b[20] # 4 \/ b[29] # blen - 10 THEN {Out(msgs, <<2, sc>>, TRUE) : sc \in 0..11} ELSE {})
                [] typ = 3 -> IF blen < 2 THEN {Out(msgs, <<1, 2>>, TRUE)} \cup RefSet(rest, msgs) ELSE {Out(Append(msgs, "N"), <<>>, TRUE)}
-               [] typ = 2 -> IF blen < 4 THEN {Out(msgs, <<1, 2>>, TRUE)} \cup RefSet(rest, msgs) ELSE RefSet(rest, Append(msgs, "U"))
+               \* an UPDATE is reported (as decoded, or as malformed); when its two length fields do not fit the body there may
+               \* be nothing to report (C11 / C10 speak about that case: no result object, at most one report)
+               [] typ = 2 -> IF blen < 4 THEN {Out(msgs, <<1, 2>>, TRUE)} \cup RefSet(rest, msgs)
+                             ELSE LET wl == b[20] * 256 + b[21]
+                                      fits == wl + 4 <= blen /\ wl + 4 + b[20 + wl + 2] * 256 + b[20 + wl + 3] <= blen
+                                  IN RefSet(rest, Append(msgs, "U")) \cup (IF fits THEN {} ELSE RefSet(rest, msgs))
                [] OTHER -> IF blen # 4 THEN {Out(msgs, <<1, 2>>, TRUE)} \cup RefSet(rest, msgs) ELSE RefSet(rest, Append(msgs, "R"))
 Ref(b) == RefSet(b, <<>>)
 
